@@ -146,6 +146,9 @@ func judgeC16(t *testing.T, sc C16Script) (key, msg string) {
 	})
 	mu.Lock()
 	defer mu.Unlock()
+	if core.IsInconclusive(err) {
+		return "inconclusive", err.Error()
+	}
 	if o == nil {
 		return "harness/bubble", fmt.Sprint(err)
 	}
@@ -305,6 +308,10 @@ func TestC16(t *testing.T) {
 	rapid.Check(t, func(rt *rapid.T) {
 		sc := genC16(rt)
 		key, msg := judgeC16(t, sc)
+		if key == "inconclusive" {
+			st.AddInconclusive()
+			return
+		}
 		all := sc.Brand + sc.Model + sc.Type + sc.Serial + sc.ID + sc.Ski
 		long := len(sc.Brand) > 32 || len(sc.Model) > 32 || len(sc.Type) > 32 || len(sc.Serial) > 32
 		sep := strings.ContainsAny(all, "=;:,")
